@@ -251,6 +251,9 @@ def check_readers_validate(ck):
 def check(ck):
     from .memo import check_new_memo_tables
     ck.run(check_new_memo_tables, ck, "C08.M1", ('storage_base', 'storage_filesystem'))
+    from .c07 import check_who_may_delete
+    ck.rule("C08.R5", "no error handler or write path deletes stored objects (who may delete, shared with C07.R4)", 3)
+    ck.run(check_who_may_delete, ck, "C08.R5")
     ck.run(check_write_order, ck)
     ck.run(check_pointer_trust, ck)
     ck.run(check_recovery, ck)
